@@ -1,8 +1,9 @@
 (* C20 — agent lifecycle: health gating, unhealthy exit, graceful shutdown.  Statements only.
    PARTIAL: wall-clock margins and process exit are runtime behaviour, decided by the black-box run. *)
-From Coq Require Import List Arith Bool Lia.
-From IP Require Import Agent.Lifecycle Proofs.LifecycleProofs.
+From Coq Require Import List Arith Bool Lia String ZArith.
+From IP Require Import Gen.SrcFacts_Agent Agent.Lifecycle Proofs.LifecycleProofs Agent.LifecycleLTS Proofs.LifecycleLTSProofs.
 Import ListNotations.
+Local Open Scope nat_scope.
 
 (* the agent asks the proxy for work right after the first passing health check, never before *)
 Theorem C20_gate : forall checks n, wait_healthy checks = Some n ->
@@ -10,7 +11,7 @@ Theorem C20_gate : forall checks n, wait_healthy checks = Some n ->
 Proof. exact gate. Qed.
 Print Assumptions C20_gate.
 
-Theorem C20_gate_never : forall checks, wait_healthy checks = None -> forall j, j < length checks -> nth_error checks j = Some false.
+Theorem C20_gate_never : forall checks, wait_healthy checks = None -> forall j, j < List.length checks -> nth_error checks j = Some false.
 Proof. exact gate_never. Qed.
 Print Assumptions C20_gate_never.
 
@@ -19,8 +20,8 @@ Print Assumptions C20_gate_never.
    just seen reaches the threshold (a single success resets the count), and otherwise never. *)
 Theorem C20_unhealthy : forall t checks,
   match health_exit t checks with
-  | Some n => 0 < n <= length checks /\ Nat.max 1 t <= tf (firstn n checks) /\ forall m, 0 < m -> m < n -> tf (firstn m checks) < Nat.max 1 t
-  | None => forall m, 0 < m -> m <= length checks -> tf (firstn m checks) < Nat.max 1 t
+  | Some n => 0 < n <= List.length checks /\ Nat.max 1 t <= tf (firstn n checks) /\ forall m, 0 < m -> m < n -> tf (firstn m checks) < Nat.max 1 t
+  | None => forall m, 0 < m -> m <= List.length checks -> tf (firstn m checks) < Nat.max 1 t
   end.
 Proof.
   intros t checks. unfold health_exit.
@@ -33,15 +34,146 @@ Print Assumptions C20_unhealthy.
    grace period G it exits at t_sig + G, a request whose backend answer and upload complete before
    that is answered in full, and no pending-list poll starts after the signal *)
 Theorem C20_graceful : forall G t_sig,
-  exit_time {| grace := G |} t_sig = t_sig + G /\
-  (forall t_done up, answered {| grace := G |} t_sig t_done up = true <-> t_done + up < t_sig + G) /\
-  (forall t, may_start_list {| grace := G |} t_sig t = true -> t < t_sig).
+  exit_time {| Lifecycle.grace := G |} t_sig = t_sig + G /\
+  (forall t_done up, answered {| Lifecycle.grace := G |} t_sig t_done up = true <-> t_done + up < t_sig + G) /\
+  (forall t, may_start_list {| Lifecycle.grace := G |} t_sig t = true -> t < t_sig).
 Proof.
   intros G t_sig. split; [reflexivity|]. split.
-  - intros t_done up. unfold answered, exit_time. cbn [grace]. apply Nat.ltb_lt.
-  - intros t H. unfold may_start_list in H. cbn [grace] in H. destruct G; apply Nat.ltb_lt in H; exact H.
+  - intros t_done up. unfold answered, exit_time. cbn [Lifecycle.grace]. apply Nat.ltb_lt.
+  - intros t H. unfold may_start_list in H. cbn [Lifecycle.grace] in H. destruct G; apply Nat.ltb_lt in H; exact H.
 Qed.
 Print Assumptions C20_graceful.
+
+(* ------------------------------------------------------------------------------------------
+   The life-cycle as a labelled transition system (Agent/LifecycleLTS.v): main, the signal
+   plumbing, the health goroutine, the poll loop and the workers as interleaved steps, with time.
+   Every theorem below is about EVERY trace of that system (any interleaving, any number of
+   health checks, signals, list calls and requests, any timing).
+   ------------------------------------------------------------------------------------------ *)
+
+(* what the LTS takes from the source, regenerated on every run: the handler is registered once, for
+   SIGINT and SIGTERM, through a channel of capacity 1, is never unregistered, and main calls
+   waitForHealthy before anything else, registers the handler after the adapter is started and
+   cancels polling before it sleeps for the grace period *)
+Theorem C20_source_lifecycle :
+  shutdownSignalPkgCalls = ["signal.Notify"%string] /\
+  shutdownSignals = ["syscall.SIGINT"%string; "syscall.SIGTERM"%string] /\
+  shutdownChanCaps = [1%Z; 0%Z] /\
+  signalPkgCallsElsewhere = [] /\
+  mainLifecycleOrder = ["log.Fatal"; "log.Fatal"; "waitForHealthy"; "runHealthChecks"; "runAdapter"; "log.Fatal"; "utils.ShutdownSignalChan";
+                        "requestPollingCancel"; "time.Sleep"; "log.Fatal"]%string.
+Proof. repeat split; reflexivity. Qed.
+Print Assumptions C20_source_lifecycle.
+
+(* health gate: with health checks enabled no pending-list call starts, no request is taken on and the poll
+   loop does not exist before some check has passed *)
+Theorem C20_gate_lts : forall c tr s, hc_enabled c = true -> run c (init c) tr = Some s ->
+  (list_starts s <> [] \/ workers s <> [] \/ poll s <> PNotStarted) -> In (Check true) tr.
+Proof. exact gate_lts. Qed.
+Print Assumptions C20_gate_lts.
+
+(* unhealthy exit: in every live state reached the counter of consecutive failures is below the threshold; a check
+   resets it (pass) or increments it (fail) and ends the process with status 1 exactly when it reaches the
+   threshold; nothing else touches the counter *)
+Theorem C20_unhealthy_lts :
+  (forall c tr s, run c (init c) tr = Some s -> exited s = false -> bad s < Nat.max 1 (thr c)) /\
+  (forall c s (ok : bool), hc_enabled c = true -> running s = true ->
+     let bad' := if ok then 0 else S (bad s) in
+     exists s', step c s (Check ok) = Some s' /\
+       (if Nat.max 1 (thr c) <=? bad' then main s' = MExited 1 (now s) else main s' = main s /\ bad s' = bad') /\
+       workers s' = workers s /\ list_starts s' = list_starts s) /\
+  (forall c s l s', step c s l = Some s' -> (forall ok, l <> Check ok) -> bad s' = bad s).
+Proof. split; [exact counter_below_threshold|]. split; [exact check_step|exact bad_frame]. Qed.
+Print Assumptions C20_unhealthy_lts.
+
+(* the only ways the process ends: status 1 by the health threshold or by the end of the grace period,
+   status 0 by main returning on a signal when no grace period is configured, killed (2) by a signal that
+   arrives before the handler is registered; always at the instant of that step *)
+Theorem C20_exit_causes : forall c s l s' code t, step c s l = Some s' -> exited s = false -> main s' = MExited code t ->
+  t = now s /\
+  ((code = 1 /\ exists ok, l = Check ok /\ Nat.max 1 (thr c) <= (if ok then 0 else S (bad s))) \/
+   (code = 1 /\ l = Deadline /\ exists d, main s = MDraining d /\ d <= now s) \/
+   (code = 0 /\ l = MainWake /\ grace c = 0 /\ main s = MRunning /\ chclosed s = true) \/
+   (code = 2 /\ l = Sig /\ registered s = false)).
+Proof. exact exit_causes. Qed.
+Print Assumptions C20_exit_causes.
+
+(* a signal reaches main at once; without a grace period the process exits at that instant, with one main
+   cancels polling and fixes the deadline now + grace, leaving the workers alone *)
+Theorem C20_signal_reaches_main : forall c s, main s = MRunning -> registered s = true -> chclosed s = false -> sigbuf s = 0 -> 0 < sig_cap c ->
+  exists s', run c s [Sig; SigTake; MainWake] = Some s' /\
+    match grace c with 0 => main s' = MExited 0 (now s) | g => main s' = MDraining (now s + g) /\ cancelled s' = true /\ workers s' = workers s end.
+Proof. exact signal_reaches_main. Qed.
+Print Assumptions C20_signal_reaches_main.
+
+(* no new pending-list call starts once polling is cancelled, and every list call of a run started no later
+   than the instant at which main began the shutdown *)
+Theorem C20_no_list_after_cancel :
+  (forall c tr s s', run c s tr = Some s' -> cancelled s = true -> list_starts s' = list_starts s /\ cancelled s' = true) /\
+  (forall c tr s t, run c (init c) tr = Some s -> cancelled_at s = Some t -> forall x, In x (list_starts s) -> x <= t).
+Proof. split; [exact no_list_after_cancel|exact lists_before_shutdown]. Qed.
+Print Assumptions C20_no_list_after_cancel.
+
+(* the process exits when the period ends: from a draining state reached in a run, along any continuation
+   without a failing health check, it is still draining with the same deadline or has exited with status 1
+   at a time not before the deadline; and the exit step is enabled as soon as the deadline has come *)
+Theorem C20_exit_at_deadline :
+  (forall c tr1 tr2 s s' d, run c (init c) tr1 = Some s -> main s = MDraining d -> run c s tr2 = Some s' -> no_failed_check tr2 = true ->
+     main s' = MDraining d \/ exists t, main s' = MExited 1 t /\ d <= t) /\
+  (forall c s d, main s = MDraining d -> d <= now s -> exists s', step c s Deadline = Some s' /\ main s' = MExited 1 (now s)).
+Proof. split; [exact drain_exit_reach|exact deadline_enabled]. Qed.
+Print Assumptions C20_exit_at_deadline.
+
+(* further signals are inert: once the handler is registered (it stays registered along every run) a signal is
+   queued or dropped and changes nothing else - not main, not the deadline, not the workers, not the poll loop *)
+Theorem C20_later_signals_inert :
+  (forall c s, exited s = false -> registered s = true ->
+     exists s', step c s Sig = Some s' /\ main s' = main s /\ workers s' = workers s /\ cancelled s' = cancelled s /\ poll s' = poll s /\
+                list_starts s' = list_starts s /\ bad s' = bad s /\ registered s' = true /\ now s' = now s) /\
+  (forall c tr s s', run c s tr = Some s' -> registered s = true -> registered s' = true).
+Proof. split; [exact later_signal_inert|exact registered_run]. Qed.
+Print Assumptions C20_later_signals_inert.
+
+(* while the agent waits for the first passing health check the handler is not registered yet: a signal ends the
+   process at that instant (default disposition) *)
+Theorem C20_signal_while_waiting : forall c s, exited s = false -> registered s = false ->
+  exists s', step c s Sig = Some s' /\ main s' = MExited 2 (now s).
+Proof. exact signal_while_waiting. Qed.
+Print Assumptions C20_signal_while_waiting.
+
+(* a request already forwarded is independent of the shutdown: its next step is enabled in every live state, no
+   other step changes its phase, and from a draining state a request at the backend completes (answer, upload)
+   without touching the deadline *)
+Theorem C20_workers_independent :
+  (forall c s id p, exited s = false -> phase_of id s = Some p -> p <> WDone ->
+     exists s', step c s (Work id) = Some s' /\ phase_of id s' = Some (next_phase p) /\ main s' = main s /\ now s' = now s /\
+                (forall j, j <> id -> phase_of j s' = phase_of j s)) /\
+  (forall c s l s' id p, step c s l = Some s' -> phase_of id s = Some p -> l <> Work id -> phase_of id s' = Some p) /\
+  (forall c s d id, main s = MDraining d -> phase_of id s = Some WAtBackend ->
+     exists s', run c s [Work id; Work id] = Some s' /\ phase_of id s' = Some WDone /\ main s' = MDraining d /\ now s' = now s).
+Proof. split; [exact work_enabled|]. split; [exact worker_frame|exact drain_completes]. Qed.
+Print Assumptions C20_workers_independent.
+
+(* non-vacuity: a late-healthy agent takes a request, is signalled twice, answers the request during the grace
+   period and exits at the deadline; and the same run without a grace period exits at the signal *)
+Example C20_lts_example :
+  let c := {| hc_enabled := true; thr := 2; grace := 5; sig_cap := 1 |} in
+  match run c (init c) [Check false; Tick 1; Check true; ListStart; Tick 1; ListReturn [7]; Work 7; ListStart; Sig; SigTake; MainWake; Sig; Sig; Tick 2;
+                        ListReturn []; LoopStop; Work 7; Work 7; Tick 3; Deadline] with
+  | Some s => main s = MExited 1 7 /\ phase_of 7 s = Some WDone /\ list_starts s = [2; 1] /\ cancelled_at s = Some 2
+  | None => False
+  end /\
+  let c0 := {| hc_enabled := false; thr := 1; grace := 0; sig_cap := 1 |} in
+  match run c0 (init c0) [ListStart; Tick 4; Sig; SigTake; MainWake] with Some s => main s = MExited 0 4 | None => False end.
+Proof. vm_compute. repeat split; reflexivity. Qed.
+
+(* sharpness: a list call after the shutdown began, a worker step after exit, and a deadline before its time are not traces *)
+Example C20_lts_sharp :
+  let c := {| hc_enabled := false; thr := 1; grace := 5; sig_cap := 1 |} in
+  run c (init c) [Sig; SigTake; MainWake; ListStart] = None /\
+  run c (init c) [Sig; SigTake; MainWake; Tick 4; Deadline] = None /\
+  run c (init c) [ListStart; ListReturn [1]; Sig; SigTake; MainWake; Tick 5; Deadline; Work 1] = None.
+Proof. vm_compute. repeat split; reflexivity. Qed.
 
 Example C20_example :
   wait_healthy [false; false; true; false] = Some 3 /\
